@@ -331,15 +331,26 @@ def sched_harness(kind, pattern, nthreads):
                 raise HarnessError("factory lock attribute %s not found on %r" % (attr, obj))
             setattr(obj, attr, lock_factory())
             bound += 1
-        if kind == 'gettz':
+        if kind in ('gettz', 'gettz-size0', 'gettz-resize'):
             tz.gettz.cache_clear()
-            tz.gettz.set_cache_size(1 if any(len(set(p)) > 1 for p in pattern) else 8)
+            if kind == 'gettz-size0':
+                tz.gettz.set_cache_size(0)            # no retention at all: every request passes the eviction code
+            elif kind == 'gettz-resize':
+                tz.gettz.set_cache_size(2)
+                tz.gettz(GETTZ_NAMES[3])              # a full strong cache that a thread shrinks while another one requests
+                tz.gettz(GETTZ_NAMES[4])
+            else:
+                tz.gettz.set_cache_size(1 if any(len(set(p)) > 1 for p in pattern) else 8)
             # gettz(<TZ string>) goes through the tzstr factory: bring that one into a fixed state too
             tag = uniq()
             for i in range(9):
                 tz.tzstr('%sD%s%d' % (tag, chr(ord('A') + i), i + 1))
             keys = [GETTZ_NAMES[0], tag + '5EDT,M3.2.0,M11.1.0', GETTZ_NAMES[2]]   # the TZ string is unique per build
-            call = lambda k: tz.gettz(keys[k])
+            def call(k, _keys=keys):
+                if k == 'shrink':
+                    tz.gettz.set_cache_size(0)
+                    return None
+                return tz.gettz(_keys[k])
         elif kind == 'tzoffset':
             tag = uniq()
             # bring the strong cache into one fixed state (full of otherwise unreferenced dummies) through the
@@ -360,7 +371,8 @@ def sched_harness(kind, pattern, nthreads):
                 out = []
                 for k in seq:
                     z = call(k)
-                    out.append((k, z))
+                    if k != 'shrink':
+                        out.append((k, z))
                 return out
             return body
         return [body_for(seq) for seq in pattern], None
@@ -473,6 +485,10 @@ def zone_menu():
                         ('tzfile-syn-other-names', [1, 0, 1, 0], [(-18000, 0, 'XST'), (-14400, 1, 'XDT')]),
                         ('tzfile-syn-other-offsets', [1, 0, 1, 0], [(-18000, 0, 'EST'), (-12600, 1, 'EDT')])):
         zs.append((nm, tz.tzfile(io.BytesIO(tzif_ref.encode(T, idx, tt)), filename=nm)))
+    # two different data sets under one file name (two tzdata releases, a file rewritten between two loads)
+    zs.append(('tzfile-syn-same-name-1', tz.tzfile(io.BytesIO(tzif_ref.encode(T, [1, 0, 1, 0], types)), filename='Same/Name')))
+    zs.append(('tzfile-syn-same-name-2', tz.tzfile(io.BytesIO(tzif_ref.encode(T, [1, 0, 1, 0], [(-18000, 0, 'EST'), (-10800, 1, 'EDT')])),
+                                                   filename='Same/Name')))
     zs.append(('tzical', tz.tzical(io.StringIO(pm.vtimezone(pm.make_spec({})))).get()))
     return zs
 
@@ -644,6 +660,9 @@ def run(ctx):
         if kind != 'tzutc':
             sched.append((kind, same_twice, 1 if not T else 2, 60000))
             sched.append((kind, aba, 1, 60000))
+    sched.append(('gettz-size0', same2, 2, 60000))
+    sched.append(('gettz-resize', ((0,), ('shrink',)), 2, 60000))
+    sched.append(('gettz-resize', ((0, 0), ('shrink',)), 1, 60000))
     if T:
         for kind in ('tzoffset', 'tzstr', 'gettz'):
             sched.append((kind, ((0,), (0,), (0,)), 2, 200000))
